@@ -66,13 +66,55 @@ def load_runtime():
         def _on_whad_message(self, message):
             if message.message_type == "discovery" and message.message_name in ("info_query", "domain_query"):
                 return super()._on_whad_message(message)
+            if message.message_type == "phy" and message.message_name == "get_supported_freq":
+                return self._send_whad_message(self.hub.phy.create_supported_freq_ranges([(2400000000, 2500000000)]))
+            if message.message_type == "phy" and message.message_name == "sched_send":
+                return self._send_whad_message(self.hub.phy.create_schedule_packet_response(1, False))
             self._send_whad_command_result(CommandResult.SUCCESS)
 
         def domain_messages(self):
             return [n for t, n in self.log if t not in ("discovery", "generic")]
 
+        def domain_message_bits(self, enums):
+            """command number of each domain message sent (-1: no command known for that message)"""
+            out = []
+            for t, n in self.log:
+                if t in ("discovery", "generic"):
+                    continue
+                cmd = MSG_CMD.get(t, {}).get(n)
+                if cmd is None and n.startswith("prepare"):
+                    cmd = "PrepareSequence"
+                out.append(enums.get(t, {}).get(cmd, -1))
+            return out
+
     return RecDevice
 
+
+# domain message (protobuf field name) -> name of the command (class Commands) the interface must advertise
+MSG_CMD = {
+    "ble": {"set_bd_addr": "SetBdAddress", "sniff_adv": "SniffAdv", "jam_adv": "JamAdv", "jam_adv_chan": "JamAdvOnChannel",
+            "reactive_jam": "ReactiveJam", "sniff_connreq": "SniffConnReq", "sniff_aa": "SniffAccessAddress",
+            "sniff_conn": "SniffActiveConn", "jam_conn": "JamConn", "scan_mode": "ScanMode", "adv_mode": "AdvMode",
+            "set_adv_data": "SetAdvData", "central_mode": "CentralMode", "connect": "ConnectTo", "send_raw_pdu": "SendRawPDU",
+            "send_pdu": "SendPDU", "disconnect": "Disconnect", "periph_mode": "PeripheralMode", "start": "Start", "stop": "Stop",
+            "encryption": "SetEncryption", "hijack_master": "HijackMaster", "hijack_slave": "HijackSlave",
+            "hijack_both": "HijackBoth", "prepare": "PrepareSequence", "trigger": "TriggerSequence", "delete_seq": "DeleteSequence"},
+    "dot15d4": {"set_node_addr": "SetNodeAddress", "sniff": "Sniff", "jam": "Jam", "ed": "EnergyDetection", "send": "Send",
+                "send_raw": "SendRaw", "end_device": "EndDeviceMode", "router": "RouterMode", "coordinator": "CoordinatorMode",
+                "start": "Start", "stop": "Stop", "mitm": "ManInTheMiddle"},
+    "esb": {"set_node_addr": "SetNodeAddress", "sniff": "Sniff", "jam": "Jam", "send": "Send", "send_raw": "SendRaw",
+            "prx": "PrimaryReceiverMode", "ptx": "PrimaryTransmitterMode", "start": "Start", "stop": "Stop"},
+    "unifying": {"set_node_addr": "SetNodeAddress", "sniff": "Sniff", "jam": "Jam", "send": "Send", "send_raw": "SendRaw",
+                 "dongle": "LogitechDongleMode", "keyboard": "LogitechKeyboardMode", "mouse": "LogitechMouseMode",
+                 "start": "Start", "stop": "Stop", "sniff_pairing": "SniffPairing"},
+    "phy": {"mod_ask": "SetASKModulation", "mod_fsk": "SetFSKModulation", "mod_gfsk": "SetGFSKModulation",
+            "mod_bpsk": "SetBPSKModulation", "mod_qpsk": "SetQPSKModulation", "mod_4fsk": "Set4FSKModulation",
+            "mod_msk": "SetMSKModulation", "get_supported_freq": "GetSupportedFrequencies", "set_freq": "SetFrequency",
+            "datarate": "SetDataRate", "endianness": "SetEndianness", "tx_power": "SetTXPower", "packet_size": "SetPacketSize",
+            "sync_word": "SetSyncWord", "sniff": "Sniff", "send": "Send", "send_raw": "SendRaw", "start": "Start", "stop": "Stop",
+            "jam": "Jam", "monitor": "Monitor", "mod_lora": "SetLoRaModulation", "sched_send": "ScheduleSend"},
+}
+ENUMS = {}     # message_type -> {command name: number}, filled in main()
 
 ALL_DOMAINS = [0x01000000, 0x03000000, 0x04000000, 0x06000000, 0x07000000]
 
@@ -100,7 +142,7 @@ def outcome(fn, dev):
         res = "false" if (r is False or r is None) else "ok"
     except BaseException as e:  # noqa
         res = type(e).__name__
-    return {"r": res, "sent": dev.domain_messages()}
+    return {"r": res, "sent": dev.domain_messages(), "bits": dev.domain_message_bits(ENUMS)}
 
 
 # ---- arguments for guarded operations (only matter on paths where the guard holds) ----
@@ -219,7 +261,7 @@ def main():
         print("RESULT " + json.dumps(T.translate(want_ops=req.get("want_ops", ()))))
         return
     RecDevice = load_runtime()
-    res = {"preds": [], "ctors": [], "ops": [], "di": []}
+    res = {"preds": [], "ctors": [], "ops": [], "di": [], "seqs": []}
     # ---- predicates
     bases, pred_names, dvals = {}, {}, {}
     for dk, (modname, cname) in T.BASES.items():
@@ -227,6 +269,7 @@ def main():
         cls = getattr(mod, cname)
         bases[dk] = cls
         dvals[dk] = T.domain_of(cls)[0]
+        ENUMS[dk] = {k: int(v) for k, v in vars(mod.Commands).items() if not k.startswith("_") and isinstance(v, int)}
         import ast
         _p, _s, cn = T.class_node(cls)
         names = []
@@ -267,7 +310,14 @@ def main():
         res["ctors"].append(outcome(lambda: rcls[rid](dev, **kw) or True, dev))
     # ---- guarded operations
     ocls = {}
-    for oid, cmds, caps, seed in req.get("ops", []):
+    def call_method(conn, dev, dk, meth):
+        fn = getattr(conn, meth)
+        kw = op_args(fn, dk)
+        return outcome(lambda: fn(**kw), dev)
+
+    for case in req.get("ops", []):
+        oid, cmds, caps, seed = case[:4]
+        prefix = case[4] if len(case) > 4 else []
         dk, cname, meth = oid.split(".")
         key = (dk, cname)
         if key not in ocls:
@@ -279,14 +329,38 @@ def main():
         except BaseException as e:  # noqa
             res["ops"].append({"skip": type(e).__name__})
             continue
-        dev.log.clear()
-        fn = getattr(conn, meth)
+        pre = []
         try:
-            kw = op_args(fn, dk)
-        except BaseException as e:  # noqa
+            for pm in prefix:       # operations called before, on the same connector
+                dev.log.clear()
+                pre.append(call_method(conn, dev, dk, pm))
+            dev.log.clear()
+            o = call_method(conn, dev, dk, meth)
+        except BaseException as e:  # noqa  (argument recipe failed)
             res["ops"].append({"skip": "args:" + type(e).__name__})
             continue
-        res["ops"].append(outcome(lambda: fn(**kw), dev))
+        if prefix:
+            o["pre"] = pre
+        res["ops"].append(o)
+    # ---- sequences of operations on one role connector
+    for rid, cmds, caps, seed, meths in req.get("seqs", []):
+        modname, cname, dk = roles[rid]
+        if rid not in rcls:
+            rcls[rid] = getattr(importlib.import_module(modname), cname)
+        dev = make_device(RecDevice, dvals[dk], cmds, caps, True, seed)
+        holder = {}
+        def build():
+            holder["c"] = rcls[rid](dev)
+            return True
+        o = {"ctor": outcome(build, dev), "steps": []}
+        if "c" in holder:
+            for m in meths:
+                dev.log.clear()
+                try:
+                    o["steps"].append(dict(call_method(holder["c"], dev, dk, m), op=m))
+                except BaseException as e:  # noqa
+                    o["steps"].append({"op": m, "skip": "args:" + type(e).__name__})
+        res["seqs"].append(o)
     # ---- DeviceInfo
     from whad.hub import ProtocolHub
     for words, adds, d, cap in req.get("di", []):
